@@ -159,6 +159,30 @@ PROPS["C15"] = {
     "assumptions": ["pairs of one addFields step do not interfere (Go map iteration order is unspecified)"],
 }
 
+PROPS["C16"] = {
+    "modules": ["SlogModel.Props.C16"],
+    "components": [("cfg", 4000, 100000)],
+    "rule": "transform level: generated valid transform lists (nesting <= 3) and, for EVERY reference / expression / list site of "
+            "each, one invalid substitution (unknown / empty / wrong-case field, uncompilable template, out-of-range slice bound, "
+            "bad pattern, bad percentage / size, empty list) -> real VerifyTransformConfigs vs Cfg.verifySteps, accepted ones "
+            "instantiated and run on records under recover; file level: the sample configuration with every scalar at a "
+            "reference / expression / number site substituted and every mapping entry removed / nulled / retyped, loaded by "
+            "run.NewLoaderFromConfigFile under recover, accepted files instantiated (parser, transforms, serializers, chunk "
+            "makers) and fed records; distinct by op; all non-trivial",
+    "level_text": "Theorem C16_verify_sound: every (nested) list of transform configurations accepted by verification constructs "
+                  "without reaching any Must.../panic site and the constructed program processes every record without panic "
+                  "(mutual structural induction over the configuration AST, reusing the interpreter totality theorem); "
+                  "C16_extractor_wf; C16_fact_must_sites (regenerated inventory of 33 Must/panic/Fatal sites in constructors equals "
+                  "the reviewed list, each annotated with the check that excludes it). The YAML / section-presence glue is decided "
+                  "by the correspondence run, where the property itself (error value, never a crash) is the oracle.",
+    "level_note": "Trusted: Lean kernel + 3 standard axioms; sampled correspondence of Cfg.verifySteps with the real VerifyConfig "
+                  "methods; the text-level template parser and YAML decoding are exercised, not modelled. Inputs / orchestration "
+                  "/ output / buffer sections are covered by the file-level mutation run and the must-site inventory, not by a "
+                  "Lean model.",
+    "partial": "verification logic of non-transform sections not modelled in Lean",
+    "assumptions": [],
+}
+
 NOT_APPLICABLE = {k: "check not built yet in this round (planned in DESIGN.md section 6); no claim is made" for k in
                   ["C%02d" % i for i in range(1, 20)]}
 
